@@ -135,7 +135,7 @@ impl Property for C04 {
                     // answers everything until the search, then goes completely silent
                     s.answer = Answer::SilentFrom(t_search - 1_000);
                 }
-                5 if scenario_kind == 1 => s.nodes = NodesMode::Chain { limit: rng.range(2, 25) as u32 },
+                5 if scenario_kind == 1 || scenario_kind == 3 => s.nodes = NodesMode::Chain { limit: rng.range(2, 25) as u32 },
                 6 => {
                     if rng.chance(1, 2) {
                         s.peers.push((ih, vec![addr(v6, 4, i as u32 + 1, 9000), addr(v6, 4, 1000 + i as u32, 9000)]));
